@@ -121,6 +121,12 @@ CLAIMED = {
         "technique": "Coq proof (soundness of interval enclosures over R, induction over segments) + per-instance certified differential correspondence",
         "design": "DESIGN.md section 7 C15",
     },
+    "C17": {
+        "text": "Coq theorems about a model of the allocation discipline of every create / load / mutate / clear / destroy function (buffers, trajectories, light programs and players, yaw controls, RTH plans, builders, RTH entry conversion, sb_poly_solve) over an abstract heap whose free / realloc / delete are checked and in which any one C allocation request can be made to fail: for EVERY number of objects, EVERY sequence of calls and EVERY failure index, no block is released twice and nothing but a live library block is ever freed or resized (never the caller's memory behind a view); after destroying every object nothing is left allocated; a create / load call that reports an error leaves nothing allocated and its object untouched; the call during which the injected failure fires reports SB_ENOMEM, and the object it was working on can still be destroyed; a view refuses to grow. Data-dependent control flow comes from the container and builder models, capacity arithmetic is that of buffer.c. Tied to the code by exact differential runs: result code of every call, allocation event trace with logical block identifiers and sizes (link-time allocator interposition), live blocks at the end, for every scenario and every failure index.",
+        "note": "PARTIAL: failures of C++ operator new (sb_light_player_init) are not injected - the property quantifies over C allocations; use-after-free of block CONTENTS is outside the abstract heap (covered by the sanitizer runs of C03 only). Trusted: Coq kernel; hand-written model; harness/alloc_wrap.c; extraction; glibc semantics of calloc(0). No axioms.",
+        "technique": "Coq proof (ownership invariant with frame over an abstract heap, induction over call sequences and over the fuel of the builder recursions) + exact differential correspondence of allocation traces under fault injection",
+        "design": "DESIGN.md section 7 C17",
+    },
 }
 NOT_YET = "check not built yet in this session (planned: Coq model + theorems + correspondence, see DESIGN.md section 7)"
 
